@@ -146,7 +146,21 @@ func dirtyFields(v reflect.Value) []string {
 
 func isZeroish(v reflect.Value) bool {
 	switch v.Kind() {
-	case reflect.Slice, reflect.Map:
+	case reflect.Slice:
+		if v.Len() != 0 {
+			return false
+		}
+		// what the array behind an emptied slice still holds is one reslice away from the next holder
+		if v.Cap() > 0 {
+			full := v.Slice(0, v.Cap())
+			for i := 0; i < full.Len(); i++ {
+				if !isZeroish(full.Index(i)) {
+					return false
+				}
+			}
+		}
+		return true
+	case reflect.Map:
 		return v.Len() == 0
 	case reflect.Ptr, reflect.Interface:
 		return v.IsNil()
@@ -370,6 +384,9 @@ func c09Cleanliness(a *ChildArgs) {
 				setNonZero(v.Elem().Field(i), 0)
 			}
 			ptr := v.Pointer()
+			// what the library records about a node outside the node (the span registry) belongs to the node's
+			// current holder too
+			ast.SetSpan(v.Interface(), models.Span{Start: models.Location{Line: 3, Column: 4}, End: models.Location{Line: 5, Column: 6}})
 			pp.Put.Call([]reflect.Value{v})
 			a.Rec.Count("evaluations", 1)
 			label := "all-fields"
@@ -383,6 +400,10 @@ func c09Cleanliness(a *ChildArgs) {
 				continue
 			}
 			a.Rec.Count("pool_same_pointer", 1)
+			if sp := ast.GetSpan(got.Interface()); sp != models.EmptySpan() {
+				a.Rec.Viol("C09/clean/"+pp.Name+"/span", "every node obtained from the node pools is indistinguishable from a freshly constructed one",
+					fmt.Sprintf("Get%s returned an object for which GetSpan still reports %v, the span its previous holder set", pp.Name, sp), map[string]string{"pool": pp.Name})
+			}
 			for _, df := range dirtyFields(got.Elem()) {
 				a.Rec.Viol("C09/clean/"+pp.Name+"."+df, "every node obtained from the node pools is indistinguishable from a freshly constructed one",
 					fmt.Sprintf("Get%s returned an object whose field %s still holds %s (released with %s populated)", pp.Name, df, trunc(dump.Dump(got.Elem().FieldByName(df).Interface()), 120), label),
@@ -733,6 +754,40 @@ func c09Lent(a *ChildArgs) {
 			}
 		}
 		for _, n := range held {
+			ast.ReleaseAST(n)
+		}
+	}
+	// the same for the statement array
+	for round := 0; round < 50; round++ {
+		a.Rec.Count("evaluations", 1)
+		mine := make([]ast.Statement, 1, 8)
+		mine[0] = &ast.SelectStatement{TableName: "mine"}
+		spare := mine[:cap(mine)]
+		for i := 1; i < len(spare); i++ {
+			spare[i] = &ast.DropStatement{ObjectType: fmt.Sprintf("spare %d", i)}
+		}
+		tree := ast.NewAST()
+		tree.Statements = mine
+		ast.ReleaseAST(tree)
+		after := append([]ast.Statement(nil), spare...) // what the release itself left in the array
+		var held []*ast.AST
+		for k := 0; k < 4; k++ {
+			n := ast.NewAST()
+			for j := 0; j < 3; j++ {
+				n.Statements = append(n.Statements, &ast.DropStatement{ObjectType: "theirs"})
+			}
+			held = append(held, n)
+		}
+		for i := range spare {
+			if spare[i] != after[i] {
+				a.Rec.Viol("C09/lent/statements-array-written-after-release", "values handed to the caller are never modified by later library activity",
+					fmt.Sprintf("element %d of the array the caller assigned to tree.Statements changed after another holder of the pooled container appended statements", i), map[string]interface{}{"round": round})
+				round = 1 << 30
+				break
+			}
+		}
+		for _, n := range held {
+			n.Statements = nil
 			ast.ReleaseAST(n)
 		}
 	}
